@@ -16,6 +16,8 @@ TEXT = {
  'C08': ("proof", "Theorems for every n: + - * neg are the results mod 2^n, ring laws, truncating division with a = (a/b)*b + a%b on values and on wrapped results, shifts incl. counts >= n, widening/narrowing. Correspondence: all pairs of integer<4..8> x block types x all shift counts, sampled up to 256 bits."),
  'C09': ("proof", "Theorems: lns mul/div are exact exponent sums/differences with sign xor, clamp/flush (Saturating) or reduction mod 2^(n-1) (Wrapping), zero/NaN algebra, encode/decode round trip. add/sub are decided per case by an acceptance predicate with certified rational enclosures (not a for-all theorem: the implementation goes through libm). Correspondence: exhaustive <= 8 bits, sampled above."),
  'C11': ("translation_validation", "Two builds of one driver source (generic / POSIT_FAST_SPECIALIZATION) on identical inputs, compared line by line, the generic build refereed by the Coq model; lookup tables of the table-driven specialisations are re-extracted from the headers on every run and every entry is checked against the model by the Coq kernel."),
+ 'C12': ("translation_validation", "Every operation of integer, fixpnt, cfloat, lns and areal is executed once per BlockType (uint8_t, uint16_t, uint32_t, and uint64_t where one block holds the number) on the same operands at sizes around every block boundary, and the raw result bits are compared (all pairs for 7..9-bit sizes, structured sampling above); the Coq models have no block-type parameter, and the limb carry-chain addition is proved width-independent."),
+ 'C19': ("translation_validation", "The same driver source is compiled twice per number system (quiet / *_THROW_ARITHMETIC_EXCEPTION) and run on identical operands: an exception must be thrown exactly for the operands the property lists, with the documented type, and every returned result must be bit-identical; exhaustive on all operand pairs of the small configurations of posit, cfloat (all flag combinations), fixpnt, integer, lns. The Coq model proves which operands yield the error value in quiet mode."),
  'C17': ("proof", "Model: correctly rounded root = the generic nearest-even rounding over the squared valuation (no reals); theorems for floor/nearest integer roots; sqrt tables re-extracted from the headers on every run and checked entry by entry by the kernel. Correspondence: every encoding of the small posit/cfloat/fixpnt/integer configurations (exact up to 16 bits, adjacent above), sampled for large."),
  'C18': ("proof", "Theorems for every areal geometry: the encoding produced for any finite source passes the enclosure check, and the check means exactly the property (ubit clear: exact; ubit set: strictly between this exact value and the next away from zero; open interval above maxpos). Correspondence: model-aimed float/double sources for every encoding of 14 configurations <= 12 bits, sampled 16..48 bits."),
 }
